@@ -307,3 +307,204 @@ func runC07TLSStall(t *Toks) string {
 	}
 	return "OK served=2 old=1"
 }
+
+// c09tlsids: connection ids on a TLS listener when some clients never complete their handshake.
+// A connects and stays silent; B connects (TLS) and is served; A goes away; C and D connect and
+// are served while B is still there.  The ids the handlers of B, C and D report must be
+// positive and pairwise different, and OnClose must not name a connection that is still open.
+func init() { runners["c09tlsids"] = runC09TLSIds }
+
+func runC09TLSIds(t *Toks) string {
+	how := t.Next()
+	wp, err := startWorker("recovery=1 onclose=1 unbind=1 tls=tls", false)
+	if err != nil {
+		return "HARNESS-ERROR " + err.Error()
+	}
+	defer wp.kill()
+	for dl := time.Now().Add(5 * time.Second); time.Now().Before(dl); time.Sleep(2 * time.Millisecond) {
+		if a, ok := wp.ask("ready", "ready", time.Second); ok && a[0] == "true" {
+			break
+		}
+	}
+	_, cli := c18ClientConfig("server", "client")
+	search := func(c net.Conn, id int64) bool {
+		wp.ask(fmt.Sprintf("script %d w", id), "script-ok", 2*time.Second)
+		if _, err := c.Write(plainFrame("search", id)); err != nil {
+			return false
+		}
+		return gotResponse(c, 3*time.Second)
+	}
+	dial := func() (net.Conn, error) {
+		return tls.DialWithDialer(&net.Dialer{Timeout: 3 * time.Second}, "tcp", wp.addr, cli)
+	}
+	var offenders []net.Conn
+	nOff := 1
+	if how == "three" {
+		nOff = 3
+	}
+	for i := 0; i < nOff; i++ {
+		a, err := net.DialTimeout("tcp", wp.addr, 3*time.Second)
+		if err != nil {
+			return "HARNESS-ERROR offender dial"
+		}
+		if how == "garbage" {
+			_, _ = a.Write([]byte("GET / HTTP/1.0\r\n\r\n"))
+		}
+		offenders = append(offenders, a)
+	}
+	time.Sleep(50 * time.Millisecond)
+	b, err := dial()
+	if err != nil {
+		return "HARNESS-ERROR dial B: " + err.Error()
+	}
+	defer b.Close()
+	if !search(b, 8201) {
+		return "HARNESS-ERROR B not served"
+	}
+	for _, a := range offenders {
+		a.Close()
+	}
+	time.Sleep(150 * time.Millisecond) // the failed handshakes are noticed and torn down
+	var later []net.Conn
+	for i := 0; i < 3; i++ {
+		c, err := dial()
+		if err != nil {
+			return "HARNESS-ERROR dial later: " + err.Error()
+		}
+		defer c.Close()
+		if !search(c, int64(8210+i)) {
+			return "HARNESS-ERROR later connection not served"
+		}
+		later = append(later, c)
+	}
+	if !search(b, 8202) {
+		return "HARNESS-ERROR B not served the second time"
+	}
+	time.Sleep(50 * time.Millisecond)
+	evs, _ := wp.snapshotEvents()
+	idOf := map[string]string{} // message id -> ConnectionID the handler saw
+	var onclose []string
+	for _, e := range evs {
+		if e.kind == "h-start" && len(e.args) >= 4 {
+			idOf[e.args[3]] = e.args[0]
+		}
+		if e.kind == "onclose-leave" && len(e.args) >= 1 {
+			onclose = append(onclose, e.args[0])
+		}
+	}
+	ids := []string{idOf["8201"], idOf["8210"], idOf["8211"], idOf["8212"]}
+	if idOf["8202"] != idOf["8201"] {
+		return fmt.Sprintf("SPECFAIL the two requests of connection B reported ConnectionIDs %s and %s", idOf["8201"], idOf["8202"])
+	}
+	seen := map[string]bool{}
+	for _, x := range ids {
+		if x == "" || x == "0" || strings.HasPrefix(x, "-") {
+			return fmt.Sprintf("SPECFAIL a handler reported a missing or non-positive ConnectionID: B,C,D,E = %v", ids)
+		}
+		if seen[x] {
+			return fmt.Sprintf("SPECFAIL connections open at the same time share a ConnectionID: B,C,D,E = %v", ids)
+		}
+		seen[x] = true
+	}
+	for _, x := range onclose {
+		if seen[x] {
+			return fmt.Sprintf("SPECFAIL OnClose(%s) was called while the connection with that id is still open (B,C,D,E = %v)", x, ids)
+		}
+	}
+	return fmt.Sprintf("OK distinct=%d", len(seen))
+}
+
+// c18many <cfg> <behaviour>: 140 clients one after another that do not satisfy the TLS
+// configuration (each is turned away); then a conforming client connects and is served, and the
+// conforming client that was there all along still is.  "Such attempts end only their own connection",
+// however many there were.
+func init() { runners["c18many"] = runC18Many }
+
+func runC18Many(t *Toks) string {
+	cfg, beh := t.Next(), t.Next()
+	wp, err := startWorker("recovery=1 onclose=1 unbind=1 tls="+cfg, false)
+	if err != nil {
+		return "HARNESS-ERROR " + err.Error()
+	}
+	defer wp.kill()
+	for dl := time.Now().Add(5 * time.Second); time.Now().Before(dl); time.Sleep(2 * time.Millisecond) {
+		if a, ok := wp.ask("ready", "ready", time.Second); ok && a[0] == "true" {
+			break
+		}
+	}
+	_, good := c18ClientConfig("server", "client")
+	search := func(c net.Conn, id int64) bool {
+		wp.ask(fmt.Sprintf("script %d w", id), "script-ok", 2*time.Second)
+		if _, err := c.Write(plainFrame("search", id)); err != nil {
+			return false
+		}
+		return gotResponse(c, 3*time.Second)
+	}
+	old, err := tls.DialWithDialer(&net.Dialer{Timeout: 3 * time.Second}, "tcp", wp.addr, good)
+	if err != nil {
+		return "HARNESS-ERROR first dial: " + err.Error()
+	}
+	defer old.Close()
+	if !search(old, 8301) {
+		return "HARNESS-ERROR first connection not served"
+	}
+	_, nocert := c18ClientConfig("server", "")
+	refused := 0
+	for i := 0; i < 140; i++ {
+		switch beh {
+		case "tls-nocert":
+			c, err := tls.DialWithDialer(&net.Dialer{Timeout: 2 * time.Second}, "tcp", wp.addr, nocert)
+			if err == nil {
+				_ = c.SetDeadline(time.Now().Add(500 * time.Millisecond))
+				_, _ = c.Write(plainFrame("search", 7001))
+				if !gotResponse(c, 300*time.Millisecond) {
+					refused++
+				}
+				c.Close()
+			} else {
+				refused++
+			}
+		default:
+			c, err := net.DialTimeout("tcp", wp.addr, 2*time.Second)
+			if err != nil {
+				return "HARNESS-ERROR offender dial"
+			}
+			if beh == "plain" {
+				_, _ = c.Write(plainFrame("bind", 7001))
+			} else {
+				_, _ = c.Write([]byte{0xde, 0xad, 0xbe, 0xef, 0x00, 0x01, 0x02, 0x03})
+			}
+			// the server ends the attempt: wait for its close (or alert), briefly
+			_ = c.SetReadDeadline(time.Now().Add(400 * time.Millisecond))
+			buf := make([]byte, 256)
+			for {
+				if _, err := c.Read(buf); err != nil {
+					break
+				}
+			}
+			refused++
+			c.Close()
+		}
+	}
+	fresh, err := tls.DialWithDialer(&net.Dialer{Timeout: 3 * time.Second}, "tcp", wp.addr, good)
+	if err != nil {
+		return fmt.Sprintf("SPECFAIL after %d refused clients a conforming client can no longer complete its handshake: %v", refused, err)
+	}
+	defer fresh.Close()
+	if !search(fresh, 8302) {
+		return fmt.Sprintf("SPECFAIL after %d refused clients a conforming client connects but is not served", refused)
+	}
+	if !search(old, 8303) {
+		return fmt.Sprintf("SPECFAIL after %d refused clients the conforming client that was already connected is no longer served", refused)
+	}
+	evs, dead := wp.snapshotEvents()
+	for _, e := range evs {
+		if e.kind == "h-start" && len(e.args) >= 4 && e.args[3] == "7001" {
+			return "SPECFAIL a handler ran for one of the refused clients"
+		}
+	}
+	if dead {
+		return "SPECFAIL the server process died"
+	}
+	return fmt.Sprintf("OK refused=%d", refused)
+}
